@@ -491,6 +491,7 @@ class HelicityAmplitudeBuilder:
             sequential_graphs = _perform_combinatorics(transition)
             for graph in sequential_graphs:
                 first_transition = _freeze(graph)
+                self.__adapter.register_topology(first_transition.topology)
                 expression = self.__formulate_sequential_decay(first_transition)
                 sequential_expressions.append(expression)
 
